@@ -26,8 +26,44 @@ def flow_cases(dims=(2, 3), small=True):
     return cases
 
 
+def corner_cases():
+    """Legal but unusual factory configurations (the fixed lattice above uses one set of hyper-parameters): one-dimensional
+    flows, no hidden layers, a single flow layer, width 1, one- and two-knot splines, a non-symmetric spline interval, non-default
+    tanh_max_val, block dimension 1, deeper block networks, a Tanh activation, more dimensions than the lattice."""
+    cf, maf, bnaf, pl, tsf = FACTORIES
+    C = []
+    for cond in (None, 2):
+        C += [
+            {"factory": maf, "dim": 3, "cond_dim": cond, "invert": cond is None, "transformer": None, "flow_layers": 2, "nn_width": 5, "nn_depth": 0},
+            {"factory": maf, "dim": 3, "cond_dim": cond, "invert": cond is not None, "transformer": "rqs", "flow_layers": 1, "nn_width": 4, "nn_depth": 0, "knots": 2},
+            {"factory": cf, "dim": 3, "cond_dim": cond, "invert": cond is None, "transformer": "rqs", "flow_layers": 2, "nn_width": 4, "nn_depth": 0, "knots": 1},
+            {"factory": cf, "dim": 5, "cond_dim": cond, "invert": cond is not None, "transformer": None, "flow_layers": 1, "nn_width": 1, "nn_depth": 2},
+            {"factory": tsf, "dim": 3, "cond_dim": cond, "invert": cond is None, "flow_layers": 1, "knots": 1, "tanh_max_val": 1.0},
+            {"factory": tsf, "dim": 1, "cond_dim": cond, "invert": cond is not None, "flow_layers": 2, "knots": 2, "tanh_max_val": 4.5},
+        ]
+    C += [
+        {"factory": cf, "dim": 1, "cond_dim": 2, "invert": False, "transformer": None, "flow_layers": 2, "nn_width": 4},
+        {"factory": maf, "dim": 1, "cond_dim": None, "invert": True, "transformer": "rqs", "flow_layers": 2, "nn_width": 4, "knots": 3, "interval": (-1.5, 2.5)},
+        {"factory": maf, "dim": 4, "cond_dim": 1, "invert": False, "transformer": "rqs", "flow_layers": 2, "nn_width": 7, "nn_depth": 2, "knots": 6, "interval": (-2.0, 3.0)},
+        {"factory": cf, "dim": 2, "cond_dim": None, "invert": False, "transformer": "rqs", "flow_layers": 3, "nn_width": 5, "knots": 4, "interval": (-1.0, 4.0)},
+        {"factory": bnaf, "dim": 2, "cond_dim": None, "invert": True, "flow_layers": 1, "nn_block_dim": 1, "nn_depth": 0},
+        # (no Tanh activation here: such a network is not onto, and the bisection search never returns for a value outside its range)
+        {"factory": bnaf, "dim": 3, "cond_dim": 2, "invert": False, "flow_layers": 1, "nn_block_dim": 2, "nn_depth": 2},
+        {"factory": bnaf, "dim": 1, "cond_dim": None, "invert": False, "flow_layers": 2, "nn_block_dim": 4, "nn_depth": 1},
+        {"factory": pl, "dim": 1, "cond_dim": None, "invert": True, "flow_layers": 1, "negative_slope": 0.3},
+        {"factory": pl, "dim": 4, "cond_dim": 1, "invert": False, "flow_layers": 1, "negative_slope": 0.01},
+    ]
+    for c in C:
+        c["corner"] = True
+    return C
+
+
 def case_name(c):
-    return "{factory}(dim={dim},cond={cond_dim},invert={invert},tr={tr})".format(tr=c.get("transformer"), **c)
+    extra = ""
+    if c.get("corner"):
+        extra = "," + ",".join(f"{k}={c[k]}" for k in ("flow_layers", "nn_width", "nn_depth", "nn_block_dim", "knots", "interval", "tanh_max_val", "negative_slope",
+                                                         "activation") if k in c)
+    return "{factory}(dim={dim},cond={cond_dim},invert={invert},tr={tr}{extra})".format(tr=c.get("transformer"), extra=extra, **c)
 
 
 def flow_invertible(c):
@@ -52,8 +88,11 @@ def build_flow(c, key, base=None):
     kw = {"cond_dim": c["cond_dim"], "invert": c["invert"], "flow_layers": c.get("flow_layers", 2)}
     if fac in ("coupling_flow", "masked_autoregressive_flow"):
         kw["nn_width"] = c.get("nn_width", 6)
+        if "nn_depth" in c:
+            kw["nn_depth"] = c["nn_depth"]
         if c.get("transformer") == "rqs":
-            kw["transformer"] = B.RationalQuadraticSpline(knots=c.get("knots", 4), interval=c.get("interval", 3))
+            iv = c.get("interval", 3)
+            kw["transformer"] = B.RationalQuadraticSpline(knots=c.get("knots", 4), interval=tuple(iv) if isinstance(iv, (list, tuple)) else iv)
     elif fac == "block_neural_autoregressive_flow":
         kw["nn_block_dim"] = c.get("nn_block_dim", 3)
         kw["nn_depth"] = c.get("nn_depth", 1)
